@@ -121,7 +121,8 @@ _scope(
         (AX, AP, L("")),
         (AX, AP, L("x")),
         (AX, AP, L("x", "en")),
-        (I("http://é/ü"), AP, L("é", "fr")),
+        # (an IRI that is not in Unicode normal form C: decomposed accents, OHM SIGN)
+        (I("http://e\u0301.example/u\u0308\u2126"), AP, L("é", "fr")),
         # (typed rdf:langString but without a language tag: an ordinary typed literal)
         (AX, AP, L("x", None, "http://www.w3.org/1999/02/22-rdf-syntax-ns#langString")),
         (B("b"), AP, L("x", None, XSD_STRING)),
